@@ -6,7 +6,7 @@ Ghost air log (spec/net_state.py ref_send_net): air_n = number of frames handed 
 air_last / air_first = their bytes, air_addr = the TX address, air_aa = EN_AA bit 0 in force."""
 from pyvc.cdef import Contract, Lemma, LoopSpec
 from pyvc.schema import Int, Bool, Const, Bytes, ByteArray, Obj, OneOf
-from pyvc.specrt import implies, ite, oracle_int, require, assume, class_attr, set_class_attr
+from pyvc.specrt import implies, ite, oracle_int, require, assume, class_attr, set_class_attr, clock_now
 from spec.net_ref import valid_node, valid_address, level, level_addr, next_hop, pipe_to, pipe_address
 from spec.net_state import net_schema, net_inv, node_ok, pa, NETPOL
 from spec.c07 import (POL, POL_UPD, home_ok, req_wtp, req_write, req_update, havoc_radio_io, havoc_tx_cfg, havoc_update,
@@ -43,13 +43,15 @@ def frag_frame(self, k, total, msg_t):
     return hdr + msg[24 * k: min(24 * k + 24, len(msg))]
 
 
-def inv_frags(self, k_, total, msg_len, msg_t):
+def inv_frags(self, k_, total, msg_len, msg_t, is_multicast):
     hw = self._rf24._spi.hw
     return (home_ok(self) and (hw.reg[0] & 3) == 2 and msg_len == len(self.frame_buf.message)
             and 24 * (total - 1) < msg_len and msg_len <= 24 * total and msg_len > 24
             and 0 <= msg_t and msg_t <= 255 and total <= 255
             and hw.air_n == k_
+            and (hw.reg[1] & 1) == ite(bool(is_multicast), 0, 1)
             and implies(k_ >= 1, hw.air_last == frag_frame(self, k_ - 1, total, msg_t))
+            and implies(k_ >= 1, hw.air_aa == ite(bool(is_multicast), 0, 1))
             and implies(k_ >= 1, bytes(hw.air_addr) == bytes(hw.txaddr)))
 
 
@@ -205,6 +207,12 @@ def ens_write_multicast(self, old_self, result, exc, write_direct, send_type):
 
 def inv_ack_wait_rec(self, result):
     return node_ok(self) and isinstance(result, bool) and result and self.w_calls == 1 and self.u_calls >= 0
+
+
+def entry_ack_deadline(self, rx_timeout):
+    """C13: the wait ends route_timeout (ms) after the frame was accepted by the first hop -- the
+    deadline is computed from the clock value read at that moment and from route_timeout alone"""
+    return rx_timeout == clock_now() + self.route_timeout * 1000000
 
 
 def havoc_update_rec(self):
@@ -428,7 +436,8 @@ CONTRACTS = [
     Contract("C13._write", M + "_write", {"self": rec_schema(), "write_direct": Int(0, 4095), "send_type": Int(0, 4)},
              requires=[R + "req_write_rec"], ensures=[("network_ack", R + "ens_write_ack"), ("multicast", R + "ens_write_multicast")],
              raises=(), policy=POL_W,
-             loops={(M + "_write", 0): LoopSpec(R + "inv_ack_wait_rec", havoc=[R + "havoc_update_rec"], frame=R + "wait_fixed")},
+             loops={(M + "_write", 0): LoopSpec(R + "inv_ack_wait_rec", havoc=[R + "havoc_update_rec"], frame=R + "wait_fixed",
+                                                entry=R + "entry_ack_deadline")},
              props=["C13", "C14", "C05"], replayable=False),
     Contract("C14.multicast", M + "multicast",
              {"self": rec_schema(extra={"g_id0": Int(0, 0xFFFF)}), "message": OneOf(Bytes(0, 6000), ByteArray(0, 6000)), "message_type": Int(0, 255), "level": OneOf(Const(None), Int())},
